@@ -564,6 +564,7 @@ fn build_debug_for_enum(
     let ref_def = build_debug_ref_def();
     Ok(quote! {
         #[automatically_derived]
+        #[allow(non_snake_case)]
         impl #impl_g #trait_ for #this_ty #wheres {
             fn fmt(&self, __f: &mut ::core::fmt::Formatter) -> ::core::fmt::Result {
                 #ref_def
